@@ -8,11 +8,14 @@ import (
 	"encoding/hex"
 	"encoding/json"
 	"fmt"
+	"io"
 	"math/rand"
+	"os"
 	"path/filepath"
 	"sort"
 	"strings"
 	"time"
+	"unicode/utf8"
 
 	"github.com/roddhjav/apparmor.d/pkg/logs"
 )
@@ -25,7 +28,16 @@ var lineChars = map[string]string{
 	"op": "operation", "mask": "requested_mask", "fsuid": "fsuid",
 }
 
-func concChar(c string) string {
+// the punctuation class p: one of these per line (chosen by the line's number)
+var linePunct = []string{"'", "%", ":", ",", "(", ")", "[", "]", "{", "}", "+", "-", ".", "*", "?", "@", "~", "&", ";", "<", ">", "|", "$", "!", "^", "`", "/"}
+
+func concChar(c string, punct string) string {
+	if c == "p" {
+		return punct
+	}
+	if c == "%p" {
+		return strings.ToUpper(hex.EncodeToString([]byte(punct)))
+	}
 	if strings.HasPrefix(c, "%") {
 		return strings.ToUpper(hex.EncodeToString([]byte(lineChars[c[1:]])))
 	}
@@ -35,10 +47,11 @@ func concChar(c string) string {
 	return "?"
 }
 
-func concLine(cs []string) string {
+func concLine(cs []string, n int) string {
 	var b strings.Builder
+	punct := linePunct[n%len(linePunct)]
 	for _, c := range cs {
-		b.WriteString(concChar(c))
+		b.WriteString(concChar(c, punct))
 	}
 	return b.String()
 }
@@ -52,6 +65,9 @@ var lineToks = func() []lineTok {
 		if a != "G" && a != "t2" { // the encoding of G is D itself
 			res = append(res, lineTok{strings.ToUpper(hex.EncodeToString([]byte(t))), "%" + a})
 		}
+	}
+	for _, pc := range linePunct {
+		res = append(res, lineTok{pc, "p"}, lineTok{strings.ToUpper(hex.EncodeToString([]byte(pc))), "%p"})
 	}
 	// the documented generalisation of digit runs in profile / name / target (six or eight digits) is read back
 	res = append(res, lineTok{"@{int6}", "N N N"}, lineTok{"@{int8}", "N N N N"})
@@ -159,18 +175,47 @@ func lineModel(e *Env, r *Report, prop string) {
 		behs = append(behs[:keep], rest[:sample-keep]...)
 	}
 	recs := []any{}
+	routes := map[string]int{}
 	for i, b := range behs {
-		text := fmt.Sprintf("type=AVC msg=audit(17000%05d.%03d:%d): apparmor=\"DENIED\" ", i%100000, i%1000, i) + concLine(b.Line) + "\n"
+		text := fmt.Sprintf("type=AVC msg=audit(17000%05d.%03d:%d): apparmor=\"DENIED\" ", i%100000, i%1000, i) + concLine(b.Line, i) + "\n"
 		var got logs.AppArmorLogs
 		crashed := false
+		route := "file"
 		func() {
 			defer func() {
 				if p := recover(); p != nil {
 					crashed = true
 				}
 			}()
-			got = logs.New(strings.NewReader(text), "")
+			var rd io.Reader = strings.NewReader(text)
+			msg := strings.TrimSuffix(text, "\n")
+			if !strings.Contains(msg, "\n") && i%3 != 0 {
+				// through the journald carrier: a JSON string when the line is printable UTF-8 (and every
+				// sixth time anyway), an array of bytes otherwise
+				var jl []byte
+				if i%3 == 1 && utf8.ValidString(msg) && !strings.ContainsAny(msg, "\t\x12") {
+					jl, _ = json.Marshal(map[string]string{"MESSAGE": msg})
+					route = "journald-string"
+				} else {
+					nums := make([]int, len(msg))
+					for k := 0; k < len(msg); k++ {
+						nums[k] = int(msg[k])
+					}
+					jl, _ = json.Marshal(map[string][]int{"MESSAGE": nums})
+					route = "journald-bytes"
+				}
+				jp := filepath.Join(e.Scratch, fmt.Sprintf("jl-%s-%d.json", prop, i))
+				_ = os.WriteFile(jp, append(jl, '\n'), 0o644)
+				jr, err := logs.GetJournalctlLogs(jp, "", true)
+				_ = os.Remove(jp)
+				if err != nil {
+					jr = strings.NewReader("")
+				}
+				rd = jr
+			}
+			got = logs.New(rd, "")
 		}()
+		routes[route]++
 		pairs := [][2][]string{}
 		if !crashed && len(got) == 1 {
 			keys := []string{}
@@ -189,6 +234,9 @@ func lineModel(e *Env, r *Report, prop string) {
 			"n": len(got), "crashed": crashed, "got": pairs, "log": text})
 	}
 	r.Coverage["line_runs"] = len(recs)
+	for k, v := range routes {
+		r.Coverage["line_route_"+k] = v
+	}
 	r.Sample(recs[len(recs)/2])
 	tp := filepath.Join(e.Scratch, "logline-"+prop+".ndjson")
 	if err := writeNDJSON(tp, recs); err != nil {
